@@ -112,6 +112,33 @@ CHECKS.update({
              "technique; see DESIGN section 4."),
 })
 
+
+TV = "translation validation: real export/import code executed (pyxsym interpreter + native libsbml), both sides evaluated symbolically, z3 decides equality for all states/parameters; counterexamples replayed on a build"
+CHECKS.update({
+    "C12": dict(level="translation_validation", design="3/C12", technique=TV,
+        text="For each generated model (every propensity type, orders 0..4, the three delay families with delayed reactants/"
+             "products, additive/assignment rules with every frequency; deterministic and stochastic export) the real write and "
+             "read code is executed and the two models compared: dictionaries/matrices concretely, rate laws in four forms, fixed "
+             "delays and rule effects by z3 for all states, parameter values, volumes and times; writing twice is idempotent up "
+             "to the model id.",
+        note="libsbml XML round trip and str(float)/float(str) trusted; Gaussian/Gamma delays compared by class and parameter "
+             "binding; ode rules outside the property's quantifier."),
+    "C13": dict(level="translation_validation", design="3/C13", technique=TV,
+        text="Documents generated directly with libsbml (stoichiometries 1..3, modifiers, colliding local parameters, 0..2 "
+             "assignment and 0..2 rate rules in any order) are imported by the real code; z3 proves that the imported model's net "
+             "rate equations equal stoichiometry x kinetic law + rate rules of the document (reference semantics on the document's "
+             "own math ASTs) for all interior states and global parameter values; initial values and rule lists compared concretely.",
+        note="libsbml/sympy native and trusted; local parameter values concrete; documented subset only (one compartment of size 1, "
+             "no events/functions/initial assignments; rate rules on species)."),
+    "C14": dict(level="translation_validation", design="3/C14", technique=TV,
+        text="For each generated model the exported kinetic law is read back as plain SBML mathematics by an independent AST "
+             "evaluator over symbolic species/parameters and z3 decides equality with the model's own deterministic or stochastic "
+             "rate at every state; identifiers must be defined in the document; stoichiometries must equal multiplicities. Hill "
+             "exports are recorded known findings (six exact wrong formulas).",
+        note="libsbml native and trusted; Hill exponent symbolic (uninterpreted pow); known findings keyed by the normalised wrong "
+             "formula so that any other discrepancy is still a violation."),
+})
+
 NOT_YET = "check not built yet in this revision of /verif (work in progress; see DESIGN.md section 3 for the planned obligations)"
 
 
